@@ -44,13 +44,14 @@ type c08Case struct {
 	InMsg    bool   `json:"in_msg,omitempty"` // the lying frame follows a non-final first fragment
 	K        int    `json:"k,omitempty"`
 	Unlim    bool   `json:"unlimited,omitempty"` // SetReadLimit(-1) first
+	Limit    int64  `json:"limit,omitempty"`     // declared-over-limit: the read limit
 }
 
 func c08CompMode(comp string) string {
 	switch comp {
 	case "zeros":
 		return "takeover"
-	case "no-takeover":
+	case "no-takeover", "bfinal":
 		return "no-takeover"
 	}
 	return ""
@@ -61,7 +62,7 @@ func c08Payload(comp string, size, idx int) []byte {
 	switch comp {
 	case "zeros":
 		return make([]byte, size)
-	case "no-takeover":
+	case "no-takeover", "bfinal":
 		// compressible text with some variation
 		b := make([]byte, size)
 		for i := range b {
@@ -154,13 +155,17 @@ func c08Bound(delivered int) uint64 { return 4*uint64(delivered) + 1<<20 }
 
 func c08One(c *fw.Ctx, cs c08Case) {
 	c.Eval()
+	if cs.Kind == "declared-over-limit" {
+		c08DeclaredOverLimit(c, cs)
+		return
+	}
 	if cs.Kind == "declared" {
 		c08Declared(c, cs)
 		return
 	}
 	desc := fmt.Sprintf("%+v", cs)
 	masked := !cs.Client
-	def := &deflate.Deflater{NoContextTakeover: cs.Comp == "no-takeover"}
+	def := &deflate.Deflater{NoContextTakeover: cs.Comp == "no-takeover" || cs.Comp == "bfinal"}
 	// the limit in force per message is known before the stream is built
 	var in []byte
 	limits := make([]int64, len(cs.Msgs))
@@ -173,7 +178,10 @@ func c08One(c *fw.Ctx, cs c08Case) {
 		limits[i] = cur
 		payloads[i] = c08Payload(cs.Comp, m.Size, i)
 		wire := payloads[i]
-		if cs.Comp != "off" {
+		if cs.Comp == "bfinal" {
+			// the sender ends every message with a BFINAL=1 block (RFC 7692 7.2.3.4)
+			wire = def.MessageBFinal(payloads[i])
+		} else if cs.Comp != "off" {
 			wire = def.Message(payloads[i])
 		}
 		op := byte(frame.OpBinary)
@@ -303,11 +311,48 @@ func c08Declared(c *fw.Ctx, cs c08Case) {
 	c.OutcomeStr(fmt.Sprintf("declared %s %s %s op=%d inmsg=%v k=%d unlim=%v got=%d clean=%v", cs.Comp, mxRole(cs.Client), cs.API, cs.Opcode, cs.InMsg, cs.K, cs.Unlim, len(r.data), r.err == nil))
 }
 
+// c08DeclaredOverLimit: a data frame whose header declares Declared bytes and
+// that really carries K bytes, more than the read limit allows: however large
+// the declared length, the read must fail after at most limit+1 bytes and a
+// Close frame with status 1009 must be written.
+func c08DeclaredOverLimit(c *fw.Ctx, cs c08Case) {
+	desc := fmt.Sprintf("%+v", cs)
+	masked := !cs.Client
+	real := mxPattern(cs.K, 3)
+	lie := frame.Frame{Fin: true, Opcode: byte(cs.Opcode), Masked: masked, Key: [4]byte{9, 8, 7, 6}, Payload: real,
+		HasDeclared: true, DeclaredLen: cs.Declared, LenClass: 2}
+	t := mxNewTransport(mxEncode(lie))
+	conn := mxConn(t, cs.Client, "")
+	defer conn.CloseNow()
+	conn.SetReadLimit(cs.Limit)
+	r := c08ReadOne(conn, cs.API)
+	if r.panicked != "" {
+		c.Violate("C08/panic", fmt.Sprintf("%s: %s panicked: %s", desc, cs.API, r.panicked), cs)
+		return
+	}
+	if r.guardFire {
+		c.EngineError(fmt.Sprintf("%s: hang guard fired: %v", desc, r.err))
+		return
+	}
+	c.OutcomeStr(fmt.Sprintf("declared-over-limit %s %s L=%d declared=%d got=%d clean=%v", mxRole(cs.Client), cs.API, cs.Limit, cs.Declared, len(r.data), r.err == nil))
+	if r.err == nil {
+		c.Violate("C08/over-limit-reported-complete/off/declared-length", fmt.Sprintf("%s: %d bytes arrived for limit %d but the read ended cleanly", desc, cs.K, cs.Limit), cs)
+		return
+	}
+	if int64(len(r.data)) > cs.Limit+1 {
+		c.Violate("C08/over-limit-too-many-bytes", fmt.Sprintf("%s: %d bytes handed over, limit %d", desc, len(r.data), cs.Limit), cs)
+		return
+	}
+	if !mxHasCloseStatus(t.Log(), 1009) {
+		c.Violate("C08/over-limit-no-1009/declared-length", fmt.Sprintf("%s: the message exceeded the limit (frame declares %d bytes, %d arrived) but no Close frame with status 1009 was written: %s", desc, cs.Declared, cs.K, c08Closes(t.Log())), cs)
+	}
+}
+
 // ------------------------------------------------------------ enumeration ---
 
 var c08Limits = []int64{0, 1, 2, 125, 126, 4096, c08DefaultLimit, 65536, -1}
 var c08Framings = []string{"one", "split-at-limit", "bytes", "empty-frags"}
-var c08Comps = []string{"off", "zeros", "no-takeover"}
+var c08Comps = []string{"off", "zeros", "no-takeover", "bfinal"}
 var c08APIs = []string{"read", "reader"}
 
 func c08Sizes(L int64, thorough bool) []int {
@@ -333,6 +378,17 @@ var c08MoreLimits = []int64{3, 127, 4095, 4097, 65535, 131072}
 
 func c08Cases(thorough bool) []c08Case {
 	var out []c08Case
+	for _, client := range []bool{false, true} {
+		for _, api := range c08APIs {
+			for _, decl := range []uint64{40000, 1 << 32, 99999999999999, 100000000000000, 1 << 50, 1<<63 - 1} {
+				for _, L := range []int64{0, 10, 100} {
+					for _, op := range []int{frame.OpText, frame.OpBinary} {
+						out = append(out, c08Case{Kind: "declared-over-limit", Client: client, Comp: "off", API: api, Declared: decl, Opcode: op, K: 1000, Limit: L})
+					}
+				}
+			}
+		}
+	}
 	limits := c08Limits
 	maxBytes := 300
 	if thorough {
